@@ -26,18 +26,22 @@ import (
 	"net"
 	"os"
 	"path/filepath"
+	"reflect"
 	"runtime"
 	"sort"
 	"strings"
 	"sync"
+	"sync/atomic"
 	"testing"
 	"time"
+	"unsafe"
 
 	"golang.org/x/crypto/chacha20poly1305"
 	"golang.org/x/crypto/curve25519"
 	"golang.org/x/crypto/hkdf"
 
 	"github.com/postalsys/muti-metroo/internal/config"
+	"github.com/postalsys/muti-metroo/internal/filetransfer"
 	"github.com/postalsys/muti-metroo/internal/health"
 	"github.com/postalsys/muti-metroo/internal/icmp"
 	"github.com/postalsys/muti-metroo/internal/identity"
@@ -61,7 +65,14 @@ type zzvKDerive struct {
 type zzvKRaw struct {
 	f     *zzvFrame
 	d     *zzvKDerive
+	mark  *zzvKMark // harness observation that is not a frame (e.g. "the open call timed out")
 	group int
+}
+
+type zzvKMark struct {
+	Ev   string
+	Link int
+	Sid  uint64
 }
 
 type zzvKRec struct {
@@ -113,6 +124,12 @@ func (r *zzvKRec) onDerive(args ...any) {
 	}
 	r.mu.Lock()
 	r.raw = append(r.raw, zzvKRaw{d: d, group: r.group})
+	r.mu.Unlock()
+}
+
+func (r *zzvKRec) addMark(m *zzvKMark) {
+	r.mu.Lock()
+	r.raw = append(r.raw, zzvKRaw{mark: m, group: r.group})
 	r.mu.Unlock()
 }
 
@@ -235,6 +252,19 @@ func zzvKDecode(f *zzvFrame) zzvKDec {
 	return d
 }
 
+// zzvKDegenerate: all-zero, a low-order point or a non-canonical encoding of one (bit 255 ignored)
+func zzvKDegenerate(p [32]byte) bool {
+	q := p
+	q[31] &= 0x7f
+	for _, h := range zzvKClassHex {
+		b, _ := hex.DecodeString(h)
+		if bytes.Equal(q[:], b) {
+			return true
+		}
+	}
+	return false
+}
+
 // zzvKOpen tries to open a sealed payload (nonce || ciphertext || tag) under key.
 func zzvKOpen(key [32]byte, data []byte) ([]byte, bool) {
 	if len(data) < chacha20poly1305.NonceSize+chacha20poly1305.Overhead {
@@ -272,6 +302,106 @@ type zzvKWorld struct {
 	ops      map[int]*zzvKOpInfo // group -> op info (one per tunnel opened in that group, in order)
 	opsMu    sync.Mutex
 	opByKind map[string][]*zzvKOpInfo
+	flood      *zzvKFlood
+	gate       *zzvKGate
+	raceGroups map[int]bool // scenarios of the close-race driver (only a sample of them goes to TLC)
+	raceSample int
+}
+
+// zzvKFlood: a destination that, once it has received a byte, writes small chunks continuously until the peer goes away
+type zzvKFlood struct {
+	L net.Listener
+}
+
+// zzvKGate: a destination whose server-side connections are handed to the harness (it decides when data is written)
+type zzvKGate struct {
+	L     net.Listener
+	conns chan net.Conn
+}
+
+func zzvKStartGate(t testing.TB) *zzvKGate {
+	l, err := net.Listen("tcp", "127.0.0.1:0")
+	if err != nil {
+		t.Fatalf("keys: gate listen: %v", err)
+	}
+	g := &zzvKGate{L: l, conns: make(chan net.Conn, 64)}
+	go func() {
+		for {
+			c, err := l.Accept()
+			if err != nil {
+				return
+			}
+			g.conns <- c
+		}
+	}()
+	t.Cleanup(func() { l.Close() })
+	return g
+}
+
+// zzvKSessionMutex reaches the mutex of the session key the exit-side handler (exit.Handler / forward.Handler) holds
+// for a stream: handler.connections[sid].sessionKey.mu (unexported; a rename makes this an infrastructure error).
+func zzvKSessionMutex(handler any, sid uint64) (mu *sync.Mutex, err error) {
+	defer func() {
+		if r := recover(); r != nil {
+			mu, err = nil, fmt.Errorf("reflection on the exit handler failed: %v", r)
+		}
+	}()
+	hv := reflect.ValueOf(handler)
+	if hv.Kind() != reflect.Ptr || hv.IsNil() {
+		return nil, fmt.Errorf("no handler")
+	}
+	conns := hv.Elem().FieldByName("connections")
+	if !conns.IsValid() || conns.Kind() != reflect.Map {
+		return nil, fmt.Errorf("handler has no connections map")
+	}
+	acv := conns.MapIndex(reflect.ValueOf(sid))
+	if !acv.IsValid() || acv.Kind() != reflect.Ptr || acv.IsNil() {
+		return nil, fmt.Errorf("no active connection for stream %d", sid)
+	}
+	skv := acv.Elem().FieldByName("sessionKey")
+	if !skv.IsValid() || skv.Kind() != reflect.Ptr || skv.IsNil() {
+		return nil, fmt.Errorf("active connection has no sessionKey")
+	}
+	muv := skv.Elem().FieldByName("mu")
+	if !muv.IsValid() || muv.Type() != reflect.TypeOf(sync.Mutex{}) {
+		return nil, fmt.Errorf("session key has no mutex")
+	}
+	return (*sync.Mutex)(unsafe.Pointer(muv.UnsafeAddr())), nil
+}
+
+func zzvKStartFlood(t testing.TB) *zzvKFlood {
+	l, err := net.Listen("tcp", "127.0.0.1:0")
+	if err != nil {
+		t.Fatalf("keys: flood listen: %v", err)
+	}
+	go func() {
+		for {
+			c, err := l.Accept()
+			if err != nil {
+				return
+			}
+			go func() {
+				defer c.Close()
+				one := make([]byte, 1)
+				if _, err := c.Read(one); err != nil {
+					return
+				}
+				chunk := bytes.Repeat([]byte("ZZV-FLOOD-PLAINTEXT-"), zzvEnvInt("ZZV_FLOOD_CHUNK", 6))
+				pause := zzvEnvInt("ZZV_FLOOD_PAUSE_US", 0)
+				c.SetWriteDeadline(time.Now().Add(5 * time.Second))
+				for i := 0; ; i++ {
+					if _, err := c.Write(chunk); err != nil {
+						return
+					}
+					if pause > 0 && i%4 == 3 {
+						time.Sleep(time.Duration(pause) * time.Microsecond)
+					}
+				}
+			}()
+		}
+	}()
+	t.Cleanup(func() { l.Close() })
+	return &zzvKFlood{L: l}
 }
 
 type zzvKOpInfo struct {
@@ -365,6 +495,8 @@ func zzvKClosedPort(t testing.TB) int {
 }
 
 const zzvKFwdKey = "zzvfwd"
+const zzvKFloodKey = "zzvflood"
+const zzvKGateKey = "zzvgate"
 
 func zzvKExitMut(w *zzvKWorld) func(c *config.Config) {
 	return func(c *config.Config) {
@@ -373,7 +505,8 @@ func zzvKExitMut(w *zzvKWorld) func(c *config.Config) {
 		c.Exit.DomainRoutes = []string{zzvKDomain}
 		c.Exit.DNS.Servers = []string{w.dns}
 		c.Exit.DNS.Timeout = 5 * time.Second
-		c.Forward.Endpoints = []config.ForwardEndpoint{{Key: zzvKFwdKey, Target: w.echo.Addr()}}
+		c.Forward.Endpoints = []config.ForwardEndpoint{{Key: zzvKFwdKey, Target: w.echo.Addr()}, {Key: zzvKFloodKey, Target: w.flood.L.Addr().String()},
+			{Key: zzvKGateKey, Target: w.gate.L.Addr().String()}}
 		c.Shell.Enabled = true
 		c.Shell.Whitelist = []string{"cat"}
 		c.FileTransfer.Enabled = true
@@ -385,12 +518,14 @@ func zzvKExitMut(w *zzvKWorld) func(c *config.Config) {
 
 func zzvKNewWorld(t *testing.T, nt int, seed int64) *zzvKWorld {
 	w := &zzvKWorld{t: t, nt: nt, rec: &zzvKRec{}, role: map[string]string{}, pos: map[string]int{},
-		rng: mrand.New(mrand.NewSource(seed)), ops: map[int]*zzvKOpInfo{}, opByKind: map[string][]*zzvKOpInfo{}}
+		rng: mrand.New(mrand.NewSource(seed)), ops: map[int]*zzvKOpInfo{}, opByKind: map[string][]*zzvKOpInfo{}, raceGroups: map[int]bool{}}
 	w.m = zzvNewMesh(t)
 	w.m.Net.onFrame = w.rec.onFrame
 	w.m.SetHook("crypto.derive", w.rec.onDerive)
 	w.echo = zzvStartEcho(t, "127.0.0.1:0")
 	w.udpEcho = zzvKStartUDPEcho(t)
+	w.flood = zzvKStartFlood(t)
+	w.gate = zzvKStartGate(t)
 	w.closed = zzvKClosedPort(t)
 	w.dns = zzvKStartDNS(t)
 	w.icmpOK = zzvKICMPAvailable()
@@ -445,7 +580,7 @@ func zzvKNewWorld(t *testing.T, nt int, seed int64) *zzvKWorld {
 		}
 		time.Sleep(20 * time.Millisecond)
 		return a.routeMgr.Lookup(net.IPv4(127, 0, 0, 1)) != nil && a.routeMgr.LookupForward(zzvKFwdKey) != nil &&
-			a.routeMgr.LookupDomain(zzvKDomain) != nil && a.routeMgr.LookupAgent(x) != nil
+			a.routeMgr.LookupDomain(zzvKDomain) != nil && a.routeMgr.LookupAgent(x) != nil && a.routeMgr.LookupForward(zzvKFloodKey) != nil && a.routeMgr.LookupForward(zzvKGateKey) != nil
 	})
 	if !ok {
 		t.Fatalf("keys: routes did not reach the ingress (cidr=%v fwd=%v dom=%v agent=%v)",
@@ -496,7 +631,7 @@ func (w *zzvKWorld) newMarker() string {
 func (w *zzvKWorld) payload(kind, class, marker string) []byte {
 	edge := protocol.MaxPayloadSize - 28
 	switch kind {
-	case "udp", "icmp":
+	case "udp", "icmp", "icmp-ws":
 		edge = 1472 - 28
 	case "shell", "shell-tty":
 		edge = 4000 // stays below the 16 KiB pump buffer of the shell handler (frame-size issue belongs to C07)
@@ -516,19 +651,19 @@ func (w *zzvKWorld) payload(kind, class, marker string) []byte {
 	case "edge":
 		return rnd(edge)
 	case "edge+1":
-		if kind == "udp" || kind == "icmp" {
+		if kind == "udp" || kind == "icmp" || kind == "icmp-ws" {
 			return rnd(1472)
 		}
 		return rnd(edge + 1)
 	case "zeros":
 		n := 4096
-		if kind == "udp" || kind == "icmp" {
+		if kind == "udp" || kind == "icmp" || kind == "icmp-ws" {
 			n = 1200
 		}
 		return make([]byte, n)
 	case "marker":
 		n := 3000
-		if kind == "udp" || kind == "icmp" {
+		if kind == "udp" || kind == "icmp" || kind == "icmp-ws" {
 			n = 900
 		}
 		b := rnd(n)
@@ -594,7 +729,14 @@ func (w *zzvKWorld) runOp(kind, class string, info *zzvKOpInfo) error {
 	a := w.A()
 	marker := w.newMarker()
 	info.Kind, info.Class, info.Marker = kind, class, marker
-	p := w.payload(kind, class, marker)
+	pk := kind
+	if kind == "udp-late-ack" {
+		pk = "udp"
+	}
+	if strings.HasPrefix(kind, "close-race") {
+		pk = "tcp-ip"
+	}
+	p := w.payload(pk, class, marker)
 	info.Size = len(p)
 	ctx, cancel := context.WithTimeout(context.Background(), 30*time.Second)
 	defer cancel()
@@ -647,11 +789,161 @@ func (w *zzvKWorld) runOp(kind, class string, info *zzvKOpInfo) error {
 			return fmt.Errorf("no UDP reply datagram reached the ingress")
 		}
 		return nil
-	case "icmp":
+	case "close-race-tcp", "close-race-fwd":
+		// Return-direction bytes that the exit has already read from the destination when the tunnel is torn down.
+		// The exit's readLoop is Read ; Encrypt(takes the session key's mutex) ; send.  The harness holds that mutex,
+		// lets the destination deliver data (Read returns, Encrypt waits), lets the ingress close / reset the tunnel
+		// (teardown runs; anything that touches the key queues behind Encrypt), and releases the mutex in
+		// starvation mode (strict FIFO hand-off), so the teardown's key handling runs between Encrypt taking its nonce
+		// and reading the key.  Whatever then leaves the exit must still be sealed under the tunnel key.
+		var c net.Conn
+		var err error
+		if kind == "close-race-tcp" {
+			c, err = a.Dial("tcp", w.gate.L.Addr().String())
+		} else {
+			c, err = a.DialForward(ctx, zzvKGateKey)
+		}
+		if err != nil {
+			return err
+		}
+		var sc net.Conn
+		select {
+		case sc = <-w.gate.conns:
+		case <-time.After(10 * time.Second):
+			c.Close()
+			return fmt.Errorf("destination connection did not arrive")
+		}
+		defer sc.Close()
+		// sanity round trip in both directions
+		c.SetDeadline(time.Now().Add(10 * time.Second))
+		sc.SetDeadline(time.Now().Add(10 * time.Second))
+		buf := make([]byte, 64)
+		if _, err := c.Write([]byte("ping")); err != nil {
+			return err
+		}
+		if _, err := io.ReadFull(sc, buf[:4]); err != nil {
+			return fmt.Errorf("destination read: %w", err)
+		}
+		if _, err := sc.Write([]byte("pong")); err != nil {
+			return err
+		}
+		if _, err := io.ReadFull(c, buf[:4]); err != nil {
+			return fmt.Errorf("ingress read: %w", err)
+		}
+		w.m.Quiesce(5*time.Second, 5*time.Millisecond)
+		var lastSid uint64
+		found := false
+		fr := w.m.Net.Frames()
+		for i := len(fr) - 1; i >= 0; i-- {
+			if fr[i].Type == protocol.FrameStreamOpen && fr[i].To == w.exitName() {
+				lastSid, found = fr[i].StreamID, true
+				break
+			}
+		}
+		if !found {
+			return fmt.Errorf("no OPEN towards the exit in the frame log")
+		}
+		x := w.m.Nodes[w.exitName()].A
+		var handler any = x.exitHandler
+		if kind == "close-race-fwd" {
+			handler = x.forwardHandler
+		}
+		mu, err := zzvKSessionMutex(handler, lastSid)
+		if err != nil {
+			return err
+		}
+		mu.Lock()
+		unlocked := false
+		defer func() {
+			if !unlocked {
+				mu.Unlock()
+			}
+		}()
+		if _, err := sc.Write(p); err != nil { // the destination delivers data: Read returns, Encrypt queues on the mutex
+			return err
+		}
+		time.Sleep(3 * time.Millisecond)
+		if mc, ok := c.(*meshConn); ok && n%2 == 0 {
+			info.Variant = "reset"
+			a.peerMgr.SendToPeer(mc.peerID, &protocol.Frame{Type: protocol.FrameStreamReset, StreamID: mc.streamID,
+				Payload: (&protocol.StreamReset{ErrorCode: protocol.ErrGeneralFailure}).Encode()})
+			a.streamMgr.RemoveStream(mc.streamID)
+		} else {
+			info.Variant = "close"
+			c.Close()
+		}
+		time.Sleep(3 * time.Millisecond) // the teardown has reached the exit
+		mu.Unlock()
+		mu.Lock() // barge in: the first waiter wakes after > 1 ms and finds the mutex taken -> starvation mode
+		time.Sleep(500 * time.Microsecond)
+		unlocked = true
+		mu.Unlock() // hand-off chain in arrival order
+		return nil
+	case "udp-late-ack":
+		// the first open wait runs into its deadline while the ACK is held on the last link towards the ingress;
+		// further datagrams are sent meanwhile; then the late ACK is delivered
+		sid, err := a.CreateUDPAssociation(ctx, &net.UDPAddr{IP: net.IPv4(127, 0, 0, 1), Port: 40000 + n})
+		if err != nil {
+			return err
+		}
+		defer a.CloseUDPAssociation(sid)
+		a.udpIngressMu.RLock()
+		ingress := a.udpIngressByBase[sid]
+		a.udpIngressMu.RUnlock()
+		if ingress == nil {
+			return fmt.Errorf("no ingress association")
+		}
+		link := w.m.Net.LinkBetween("A", "B")
+		back := link.Dir("B")
+		back.setHold(true)
+		defer back.setHold(false)
+		dst := w.udpEcho.LocalAddr().(*net.UDPAddr)
+		ctx1, cancel1 := context.WithTimeout(context.Background(), 60*time.Millisecond)
+		_, err = a.getOrCreateDestAssociation(ctx1, ingress, net.IPv4(127, 0, 0, 1))
+		cancel1()
+		if err == nil {
+			return fmt.Errorf("the open did not time out although its ACK is held")
+		}
+		var first uint64
+		ingress.destMu.RLock()
+		for _, d := range ingress.destAssocs {
+			first = d.StreamID
+		}
+		ingress.destMu.RUnlock()
+		if first == 0 {
+			return fmt.Errorf("timed-out destination association not found")
+		}
+		w.rec.addMark(&zzvKMark{Ev: "Timeout", Link: link.id, Sid: first})
+		since := w.lastSeq()
+		done := make(chan error, 2)
+		for i := 0; i < 2; i++ {
+			go func() {
+				done <- a.RelayUDPDatagram(sid, dst, uint16(dst.Port), protocol.AddrTypeIPv4, []byte{127, 0, 0, 1}, p)
+			}()
+			time.Sleep(15 * time.Millisecond)
+		}
+		time.Sleep(40 * time.Millisecond)
+		back.setHold(false) // the late ACK(s) arrive
+		for i := 0; i < 2; i++ {
+			select {
+			case err := <-done:
+				if err != nil {
+					return fmt.Errorf("datagram after the timed-out open: %w", err)
+				}
+			case <-time.After(40 * time.Second):
+				return fmt.Errorf("datagram after the timed-out open did not return")
+			}
+		}
+		if !zzvWaitFor(10*time.Second, func() bool { return w.framesTo("A", protocol.FrameUDPDatagram, since) > 0 }) {
+			return fmt.Errorf("no UDP reply datagram reached the ingress")
+		}
+		return nil
+	case "icmp", "icmp-ws":
+		// both ICMP ingress paths: "icmp" = SOCKS5 ICMP (CreateICMPSession / RelayICMPEcho), "icmp-ws" = OpenICMPSession
 		if !w.icmpOK {
 			return errZZVSkipped
 		}
-		if n%2 == 0 {
+		if kind == "icmp-ws" {
 			info.Variant = "ws"
 			s, err := a.OpenICMPSession(ctx, w.exitID(), net.IPv4(127, 0, 0, 1))
 			if err != nil {
@@ -771,6 +1063,61 @@ func (w *zzvKWorld) runOp(kind, class string, info *zzvKOpInfo) error {
 	return fmt.Errorf("unknown kind %s", kind)
 }
 
+// raceBatch: n tunnels to a destination that writes continuously; the ingress closes / resets them while
+// return-direction data is in flight (exit: Read from the destination ; seal ; send  racing with the teardown).
+func (w *zzvKWorld) raceBatch(group *int, n int) (opened, failed int) {
+	a := w.A()
+	ctx, cancel := context.WithTimeout(context.Background(), 20*time.Second)
+	defer cancel()
+	var conns []net.Conn
+	*group++
+	w.raceGroups[*group] = true
+	w.rec.setGroup(*group)
+	var mu sync.Mutex
+	var wg sync.WaitGroup
+	for i := 0; i < n; i++ {
+		wg.Add(1)
+		go func(i int) {
+			defer wg.Done()
+			var c net.Conn
+			var err error
+			if i%2 == 0 {
+				c, err = a.Dial("tcp", w.flood.L.Addr().String())
+			} else {
+				c, err = a.DialForward(ctx, zzvKFloodKey)
+			}
+			mu.Lock()
+			if err != nil {
+				failed++
+			} else {
+				conns = append(conns, c)
+			}
+			mu.Unlock()
+		}(i)
+	}
+	wg.Wait()
+	w.rec.setGroup(0)
+	for _, c := range conns {
+		c.Write([]byte{1}) // the destination starts writing
+	}
+	time.Sleep(time.Duration(zzvEnvInt("ZZV_RACE_WAIT_US", 300)+w.rng.Intn(400)) * time.Microsecond)
+	for _, i := range w.rng.Perm(len(conns)) {
+		if d := w.rng.Intn(60); d > 20 {
+			time.Sleep(time.Duration(d) * time.Microsecond)
+		}
+		c := conns[i]
+		mc, isMesh := c.(*meshConn)
+		if isMesh && w.rng.Intn(2) == 0 {
+			a.peerMgr.SendToPeer(mc.peerID, &protocol.Frame{Type: protocol.FrameStreamReset, StreamID: mc.streamID,
+				Payload: (&protocol.StreamReset{ErrorCode: protocol.ErrGeneralFailure}).Encode()})
+			a.streamMgr.RemoveStream(mc.streamID)
+		} else {
+			c.Close()
+		}
+	}
+	return len(conns), failed
+}
+
 // ---------------------------------------------------------------------------------------------
 // trace construction
 
@@ -786,7 +1133,9 @@ type zzvKTun struct {
 	events []zzvKEv
 	first  int
 	hopsSeen map[int]bool
-	nData, nSealed, nMarker, nFin int
+	nData, nSealed, nMarker, nFin, nZeroKey int
+	race bool
+	degOpen, degAck bool // an OPEN / ACK of this tunnel carried a degenerate (e.g. all-zero) ephemeral key
 	plainFwd int
 	gotErr bool
 	ackSeenAtIngress bool
@@ -874,13 +1223,18 @@ func (w *zzvKWorld) buildTrace() *zzvKTraceResult {
 					anomaly("open frame appears first on an inner link", x.f, nil)
 					continue
 				}
-				tu = &zzvKTun{idx: len(tuns), group: x.group, kind: d.Kind, rid: d.Rid, ipub: d.Pub, first: ord, hopsSeen: map[int]bool{}}
+				tu = &zzvKTun{idx: len(tuns), group: x.group, kind: d.Kind, rid: d.Rid, ipub: d.Pub, first: ord, hopsSeen: map[int]bool{},
+					race: w.raceGroups[x.group]}
 				tuns = append(tuns, tu)
 			}
 			tu.hopsSeen[hop] = true
+			tu.degOpen = tu.degOpen || zzvKDegenerate(d.Pub)
 			bySid[zzvKSidKey{x.f.Link, x.f.StreamID}] = tu
 			tu.events = append(tu.events, zzvKEv{ord, map[string]any{"ev": "Open", "hop": hop, "from": w.role[x.f.From], "to": w.role[x.f.To],
-				"rid": ridS(d.Rid), "ipub": zzvKPubFp(d.Pub), "sid": sidS(x.f.StreamID), "kind": d.Kind}})
+				"rid": ridS(d.Rid), "ipub": zzvKPubFp(d.Pub), "sid": sidS(x.f.StreamID), "kind": d.Kind, "degenerate": zzvKDegenerate(d.Pub)}})
+			continue
+		}
+		if x.d == nil {
 			continue
 		}
 		// derivation: attribute by the ephemeral keys it mentions
@@ -921,6 +1275,14 @@ func (w *zzvKWorld) buildTrace() *zzvKTraceResult {
 	ackOrigin := map[string]string{} // pub fingerprint -> role that first put it on a wire in an ACK
 	openOrigin := map[string]string{}
 	for ord, x := range raw {
+		if x.mark != nil {
+			if tu := bySid[zzvKSidKey{x.mark.Link, x.mark.Sid}]; tu != nil {
+				tu.events = append(tu.events, zzvKEv{ord, map[string]any{"ev": x.mark.Ev}})
+			} else {
+				anomaly("harness mark on an unknown stream", nil, map[string]any{"mark": x.mark.Ev})
+			}
+			continue
+		}
 		if x.f == nil {
 			continue
 		}
@@ -965,7 +1327,8 @@ func (w *zzvKWorld) buildTrace() *zzvKTraceResult {
 			if _, ok := ackOrigin[zzvKPubFp(d.Pub)]; !ok {
 				ackOrigin[zzvKPubFp(d.Pub)] = w.role[x.f.From]
 			}
-			base["ev"], base["rid"], base["rpub"] = "Ack", ridS(d.Rid), zzvKPubFp(d.Pub)
+			base["ev"], base["rid"], base["rpub"], base["degenerate"] = "Ack", ridS(d.Rid), zzvKPubFp(d.Pub), zzvKDegenerate(d.Pub)
+			tu.degAck = tu.degAck || zzvKDegenerate(d.Pub)
 			tu.events = append(tu.events, zzvKEv{ord, base})
 		case "err":
 			if !d.OK || dir != "bwd" {
@@ -1004,6 +1367,14 @@ func (w *zzvKWorld) buildTrace() *zzvKTraceResult {
 			if !sealed && len(d.Data) >= 64 && bytes.Contains(d.Data, make([]byte, 64)) {
 				marker = true // a run of plaintext zero bytes
 			}
+			zerokey := false
+			if !sealed {
+				// "looks sealed" is not enough: does it open under the publicly known all-zero key?
+				if _, ok := zzvKOpen([32]byte{}, d.Data); ok {
+					zerokey = true
+					tu.nZeroKey++
+				}
+			}
 			tu.nData++
 			if sealed {
 				tu.nSealed++
@@ -1016,6 +1387,9 @@ func (w *zzvKWorld) buildTrace() *zzvKTraceResult {
 			}
 			ct := zzvKFp(d.Data)
 			base["ev"], base["dir"], base["ct"], base["sealed"], base["marker"], base["len"] = "Data", dir, ct, sealed, marker, len(d.Data)
+			if zerokey {
+				base["zerokey"] = true
+			}
 			tu.events = append(tu.events, zzvKEv{ord, base})
 			if (dir == "fwd" && hop == w.nt+1) || (dir == "bwd" && hop == 1) {
 				side := "X"
@@ -1057,8 +1431,28 @@ func (w *zzvKWorld) buildTrace() *zzvKTraceResult {
 		groups[tu.group] = append(groups[tu.group], tu)
 	}
 	sort.Ints(gids)
+	raceTraced := 0
 	for _, g := range gids {
 		ts := groups[g]
+		if w.raceGroups[g] {
+			// close-race driver: every tunnel is judged by the harness counters and is a scenario of its own; TLC
+			// gets a sample of them and every tunnel with a frame that is not sealed under the tunnel key
+			for _, tu := range ts {
+				bad := tu.nSealed != tu.nData || tu.nMarker > 0
+				if !bad && raceTraced >= w.raceSample {
+					continue
+				}
+				raceTraced++
+				res.Events = append(res.Events, map[string]any{"ev": "Reset", "group": g, "race": true})
+				evs := append([]zzvKEv(nil), tu.events...)
+				sort.SliceStable(evs, func(i, j int) bool { return evs[i].ord < evs[j].ord })
+				for _, e := range evs {
+					e.rec["t"] = "t1"
+					res.Events = append(res.Events, e.rec)
+				}
+			}
+			continue
+		}
 		sort.Slice(ts, func(i, j int) bool { return ts[i].first < ts[j].first })
 		if len(ts) > 2 {
 			anomaly("more than two tunnels in one scenario", nil, map[string]any{"group": g, "n": len(ts)})
@@ -1142,7 +1536,7 @@ func zzvKKinds() []string {
 	if s := os.Getenv("ZZV_KINDS"); s != "" {
 		return strings.Split(s, ",")
 	}
-	return []string{"tcp-ip", "tcp-domain", "forward", "udp", "icmp", "shell", "file-upload", "file-download"}
+	return []string{"tcp-ip", "tcp-domain", "forward", "udp", "icmp", "icmp-ws", "shell", "file-upload", "file-download"}
 }
 
 func TestZZVKeysTrace(t *testing.T) {
@@ -1223,6 +1617,30 @@ func TestZZVKeysTrace(t *testing.T) {
 			for _, pr := range pairs {
 				run([2]string{pr[0], "marker"}, [2]string{pr[1], "marker"})
 			}
+			// open wait times out, late ACK, datagrams meanwhile
+			run([2]string{"udp-late-ack", "marker"})
+			// teardown racing with return-direction data the exit has already read
+			for i := 0; i < zzvEnvInt("ZZV_LOCKRACE", 2); i++ {
+				run([2]string{"close-race-tcp", "marker"})
+				run([2]string{"close-race-fwd", "marker"})
+			}
+		}
+		// close / reset racing with return-direction data
+		raceN, raceOpened, raceFailed := zzvEnvInt("ZZV_RACE", 0), 0, 0
+		w.raceSample = zzvEnvInt("ZZV_RACE_SAMPLE", 6)
+		for raceOpened+raceFailed < raceN {
+			o, f := w.raceBatch(&group, zzvEnvInt("ZZV_RACE_BATCH", 4))
+			raceOpened += o
+			raceFailed += f
+			if (raceOpened/48)%2 == 1 { // now and then let the mesh drain
+				w.m.Quiesce(5*time.Second, 2*time.Millisecond)
+			}
+			if o == 0 {
+				break
+			}
+		}
+		if raceN > 0 && !w.m.Quiesce(15*time.Second, 40*time.Millisecond) {
+			t.Fatalf("keys: mesh did not quiesce after the close-race rounds")
 		}
 		// an operation the real agents did not complete is reported, not judged here: the python side raises an
 		// infrastructure error unless the recorded trace itself shows a violation
@@ -1239,7 +1657,7 @@ func TestZZVKeysTrace(t *testing.T) {
 		if err := zzvKWriteNdjson(out, tr.Events); err != nil {
 			t.Fatal(err)
 		}
-		nData, nSealed, nMarker, nFin := 0, 0, 0, 0
+		nData, nSealed, nMarker, nFin, nZeroKey, nRace := 0, 0, 0, 0, 0, 0
 		kindsSeen := map[string]int{}
 		sites := map[string]int{}
 		for _, tu := range tr.Tunnels {
@@ -1247,6 +1665,10 @@ func TestZZVKeysTrace(t *testing.T) {
 			nSealed += tu.nSealed
 			nMarker += tu.nMarker
 			nFin += tu.nFin
+			nZeroKey += tu.nZeroKey
+			if tu.race {
+				nRace++
+			}
 			kindsSeen[tu.kind]++
 			for _, s := range tu.sites {
 				sites[s]++
@@ -1260,7 +1682,8 @@ func TestZZVKeysTrace(t *testing.T) {
 			}
 			zzvEmit("tunnel", map[string]any{"nt": nt, "group": tu.group, "kind": tu.kind, "rid": fmt.Sprintf("%d", tu.rid),
 				"keyfps": tu.keyFps, "sites": tu.sites, "data": tu.nData, "sealed": tu.nSealed, "marker": tu.nMarker,
-				"plain_fwd": tu.plainFwd, "err": tu.gotErr})
+				"plain_fwd": tu.plainFwd, "err": tu.gotErr, "zerokey": tu.nZeroKey, "race": tu.race,
+				"deg_open": tu.degOpen, "deg_ack": tu.degAck})
 		}
 		for _, an := range tr.Anomalies {
 			an["nt"] = nt
@@ -1275,7 +1698,7 @@ func TestZZVKeysTrace(t *testing.T) {
 		}
 		zzvEmit("topo", map[string]any{"nt": nt, "trace": out, "events": len(tr.Events), "tunnels": len(tr.Tunnels), "groups": group,
 			"data_frames": nData, "sealed": nSealed, "marker_hits": nMarker, "fin_frames": nFin, "kinds": kindsSeen, "sites": sites,
-			"skipped": skipped, "failed": failed, "icmp_available": w.icmpOK, "frames": len(w.m.Net.Frames()), "ops": opsRec})
+			"skipped": skipped, "failed": failed, "zerokey_frames": nZeroKey, "race_tunnels": nRace, "race_open_failed": raceFailed, "icmp_available": w.icmpOK, "frames": len(w.m.Net.Frames()), "ops": opsRec})
 		w.m.StopAll()
 	}
 	dups := 0
@@ -1659,4 +2082,390 @@ func TestZZVKeysPuppet(t *testing.T) {
 		}
 	}
 	zzvEmit("psummary", map[string]any{"skipped": skipped, "icmp_available": w.icmpOK})
+}
+
+
+// ---------------------------------------------------------------------------------------------
+// TestZZVKeysBoundary: boundary request identifiers on every responder and (where the request id can be steered)
+// initiator code path.  The other end is a puppet that behaves like an honest peer and uses the reference derivation:
+// the real end must derive from exactly (rid, ipub, rpub) of the wire, must accept data sealed under the key an honest
+// peer derives, and what it sends back must open under that key.
+
+// zzvKSeal seals pt like SessionKey.Encrypt does: nonce = direction prefix (0x80 for the responder) || counter
+func zzvKSeal(key [32]byte, ctr uint64, responder bool, pt []byte) []byte {
+	aead, err := chacha20poly1305.New(key[:])
+	if err != nil {
+		panic(err)
+	}
+	nonce := make([]byte, 12)
+	if responder {
+		nonce[0] = 0x80
+	}
+	binary.BigEndian.PutUint64(nonce[4:], ctr)
+	return aead.Seal(append([]byte(nil), nonce...), nonce, pt, nil)
+}
+
+// zzvKSetNextRequestID makes the next stream opened by the agent use request id `next` (stream.Manager.nextRequestID is
+// an unexported atomic counter that is incremented before use)
+func zzvKSetNextRequestID(a *Agent, next uint64) (err error) {
+	defer func() {
+		if r := recover(); r != nil {
+			err = fmt.Errorf("reflection on the stream manager failed: %v", r)
+		}
+	}()
+	f := reflect.ValueOf(a.streamMgr).Elem().FieldByName("nextRequestID")
+	if !f.IsValid() || f.Type() != reflect.TypeOf(atomic.Uint64{}) {
+		return fmt.Errorf("stream.Manager has no atomic nextRequestID")
+	}
+	(*atomic.Uint64)(unsafe.Pointer(f.UnsafeAddr())).Store(next - 1)
+	return nil
+}
+
+// openSids returns the stream ids of the OPEN-type frames written from -> to, in order
+func (w *zzvKWorld) openSids(from, to string) []uint64 {
+	var out []uint64
+	for _, f := range w.m.Net.Frames() {
+		if f.From == from && f.To == to && (f.Type == protocol.FrameStreamOpen || f.Type == protocol.FrameUDPOpen || f.Type == protocol.FrameICMPOpen) {
+			out = append(out, f.StreamID)
+		}
+	}
+	return out
+}
+
+func zzvKPredictNext(sids []uint64) uint64 {
+	if len(sids) == 0 {
+		return 1
+	}
+	step := uint64(2)
+	if n := len(sids); n >= 2 && sids[n-1] > sids[n-2] {
+		step = sids[n-1] - sids[n-2]
+	}
+	return sids[len(sids)-1] + step
+}
+
+var zzvKRidClasses = []string{"0", "1", "2^32", "2^63", "2^64-1", "eq-hop-sid", "ne-hop-sid"}
+
+func zzvKRidOf(class string, predictedSid uint64) uint64 {
+	switch class {
+	case "0":
+		return 0
+	case "1":
+		return 1
+	case "2^32":
+		return 1 << 32
+	case "2^63":
+		return 1 << 63
+	case "2^64-1":
+		return ^uint64(0)
+	case "eq-hop-sid":
+		return predictedSid
+	}
+	return predictedSid + 1
+}
+
+// installPuppetExit connects a puppet behind B and gives the ingress routes of every family to it
+func (w *zzvKWorld) installPuppetExit() *zzvPuppet {
+	px := w.m.DialPuppet("PX", "B")
+	a := w.A()
+	bID := w.m.ID("B")
+	path := []identity.AgentID{bID, px.ID}
+	_, pnet, _ := net.ParseCIDR("127.66.0.0/16")
+	a.routeMgr.ProcessRouteAdvertise(bID, px.ID, 1, []routing.RouteEntry{{Network: pnet, Metric: 1}}, path, nil)
+	a.routeMgr.ProcessDomainRouteAdvertise(bID, px.ID, 1, []routing.DomainRouteEntry{{Pattern: "px.zzv.test", Metric: 1}}, path, nil)
+	a.routeMgr.ProcessForwardRouteAdvertise(bID, px.ID, 1, []routing.ForwardRouteEntry{{Key: "zzvpfwd", Metric: 1}}, path, nil)
+	a.routeMgr.ProcessAgentRouteAdvertise(bID, px.ID, 1, px.ID, path, nil, 1)
+	if r := a.routeMgr.Lookup(net.IPv4(127, 66, 0, 1)); r == nil || r.OriginAgent != px.ID {
+		w.t.Fatal("keys: could not install the route to the puppet exit")
+	}
+	return px
+}
+
+func TestZZVKeysBoundary(t *testing.T) {
+	seed := zzvSeed()
+	w := zzvKNewWorld(t, 1, seed*1000+11)
+	w.warmUp()
+	w.rec.setGroup(1)
+	exit := w.exitName()
+	cID := w.exitID()
+	skipped := map[string]int{}
+
+	// ---- (1) responder paths: puppet ingress -> real transit B -> real exit C
+	pi := w.m.DialPuppet("PI", "B")
+	kinds := []string{"tcp-ip", "tcp-domain", "forward", "udp", "icmp", "shell", "file-upload", "file-download"}
+	dlFile := filepath.Join(w.exitDir, "boundary-download.bin")
+	os.WriteFile(dlFile, []byte("ZZV-BOUNDARY-FILE"), 0o644)
+	var sid uint64 = 5001
+	for _, kind := range kinds {
+		for _, rc := range zzvKRidClasses {
+			if kind == "icmp" && !w.icmpOK {
+				skipped["resp/icmp"]++
+				continue
+			}
+			pub, priv := zzvKClassKey("valid")
+			sid += 2
+			predicted := zzvKPredictNext(w.openSids("B", exit))
+			rid := zzvKRidOf(rc, predicted)
+			nDer := len(w.rec.derives())
+			from := len(pi.Received())
+			var fr *protocol.Frame
+			var ackT, errT, closeT, dataT uint8 = protocol.FrameStreamOpenAck, protocol.FrameStreamOpenErr, protocol.FrameStreamClose, protocol.FrameStreamData
+			path := []identity.AgentID{cID}
+			switch kind {
+			case "udp":
+				o := &protocol.UDPOpen{RequestID: rid, AddressType: protocol.AddrTypeIPv4, Address: []byte{0, 0, 0, 0}, TTL: 8, RemainingPath: path, EphemeralPubKey: pub}
+				fr = &protocol.Frame{Type: protocol.FrameUDPOpen, StreamID: sid, Payload: o.Encode()}
+				ackT, errT, closeT, dataT = protocol.FrameUDPOpenAck, protocol.FrameUDPOpenErr, protocol.FrameUDPClose, protocol.FrameUDPDatagram
+			case "icmp":
+				o := &protocol.ICMPOpen{RequestID: rid, DestIP: []byte{127, 0, 0, 1}, TTL: 8, RemainingPath: path, EphemeralPubKey: pub}
+				fr = &protocol.Frame{Type: protocol.FrameICMPOpen, StreamID: sid, Payload: o.Encode()}
+				ackT, errT, closeT, dataT = protocol.FrameICMPOpenAck, protocol.FrameICMPOpenErr, protocol.FrameICMPClose, protocol.FrameICMPEcho
+			default:
+				o := &protocol.StreamOpen{RequestID: rid, RemainingPath: path, EphemeralPubKey: pub}
+				switch kind {
+				case "tcp-ip":
+					o.AddressType, o.Address, o.Port = protocol.AddrTypeIPv4, []byte{127, 0, 0, 1}, uint16(w.echo.Port())
+				case "tcp-domain":
+					o.AddressType, o.Address, o.Port = protocol.AddrTypeDomain, zzvKDomainAddr(zzvKDomain), uint16(w.echo.Port())
+				case "forward":
+					o.AddressType, o.Address = protocol.AddrTypeDomain, zzvKDomainAddr(protocol.ForwardStreamPrefix+zzvKFwdKey)
+				case "shell":
+					o.AddressType, o.Address = protocol.AddrTypeDomain, zzvKDomainAddr(protocol.ShellStream)
+				case "file-upload":
+					o.AddressType, o.Address = protocol.AddrTypeDomain, zzvKDomainAddr(protocol.FileTransferUpload)
+				case "file-download":
+					o.AddressType, o.Address = protocol.AddrTypeDomain, zzvKDomainAddr(protocol.FileTransferDownload)
+				}
+				fr = &protocol.Frame{Type: protocol.FrameStreamOpen, StreamID: sid, Payload: o.Encode()}
+			}
+			pi.Send(fr)
+			ans, next := zzvKWaitPuppet(pi, from, 10*time.Second, func(f *protocol.Frame) bool {
+				return f.StreamID == sid && (f.Type == ackT || f.Type == errT)
+			})
+			if ans == nil {
+				t.Fatalf("keys/boundary: no answer to the %s open with request id %d", kind, rid)
+			}
+			// the stream id the last hop really used
+			var lastSid uint64
+			for _, f := range w.m.Net.Frames() {
+				if f.From == "B" && f.To == exit {
+					if d := zzvKDecode(f); d.Class == "open" && d.OK && d.Pub == pub {
+						lastSid = f.StreamID
+					}
+				}
+			}
+			rec := map[string]any{"side": "resp", "kind": kind, "ridclass": rc, "rid": fmt.Sprintf("%d", rid), "last_hop_sid": lastSid,
+				"rid_eq_hop_sid": rid == lastSid}
+			if ans.Type == errT {
+				rec["outcome"] = "err"
+				zzvEmit("bvec", rec)
+				continue
+			}
+			rec["outcome"] = "ack"
+			ad := zzvKDecode(&zzvFrame{Type: ans.Type, Payload: ans.Payload})
+			var mine []*zzvKDerive
+			for _, d := range w.rec.derives()[nDer:] {
+				if d.IPub == pub || d.RPub == pub {
+					mine = append(mine, d)
+				}
+			}
+			rec["derives"] = len(mine)
+			ref, rerr := zzvKRefKey(priv, ad.Pub, rid, pub, ad.Pub)
+			if len(mine) == 1 {
+				d := mine[0]
+				rec["site"] = strings.Join(d.Sites, " < ")
+				rec["args_ok"] = ad.OK && ad.Rid == rid && d.Rid == rid && d.IPub == pub && d.RPub == ad.Pub && !d.Init
+				rec["derive_rid"] = fmt.Sprintf("%d", d.Rid)
+				rec["ref_ok"] = rerr == nil && ref == d.Key
+			}
+			// data sealed under the key an honest initiator derives; the answer must open under the same key
+			var msg []byte
+			switch kind {
+			case "shell":
+				msg, _ = shell.EncodeMeta(&shell.ShellMeta{Command: "cat"})
+			case "file-upload":
+				msg, _ = filetransfer.EncodeMetadata(&filetransfer.TransferMetadata{Path: "/zzv-not-allowed/boundary", Size: 4, Mode: 0o644})
+			case "file-download":
+				msg, _ = filetransfer.EncodeMetadata(&filetransfer.TransferMetadata{Path: dlFile})
+			default:
+				msg = []byte("ZZV-BOUNDARY-PING")
+			}
+			sealed := zzvKSeal(ref, 0, false, msg)
+			var df *protocol.Frame
+			switch kind {
+			case "udp":
+				dst := w.udpEcho.LocalAddr().(*net.UDPAddr)
+				df = &protocol.Frame{Type: dataT, StreamID: sid, Payload: (&protocol.UDPDatagram{AddressType: protocol.AddrTypeIPv4,
+					Address: []byte{127, 0, 0, 1}, Port: uint16(dst.Port), Data: sealed}).Encode()}
+			case "icmp":
+				df = &protocol.Frame{Type: dataT, StreamID: sid, Payload: (&protocol.ICMPEcho{Identifier: 77, Sequence: 1, Data: sealed}).Encode()}
+			default:
+				df = &protocol.Frame{Type: dataT, StreamID: sid, Payload: sealed}
+			}
+			pi.Send(df)
+			replyOK, replies := false, 0
+			zzvKWaitPuppet(pi, next, 3*time.Second, func(f *protocol.Frame) bool {
+				if f.StreamID != sid || f.Type != dataT {
+					return false
+				}
+				dd := zzvKDecode(&zzvFrame{Type: f.Type, Payload: f.Payload})
+				if !dd.OK || len(dd.Data) == 0 {
+					return false
+				}
+				replies++
+				if pt, ok := zzvKOpen(ref, dd.Data); ok {
+					if kind == "tcp-ip" || kind == "tcp-domain" || kind == "forward" || kind == "udp" || kind == "icmp" {
+						replyOK = bytes.Equal(pt, msg)
+					} else {
+						replyOK = true
+					}
+				}
+				return true
+			})
+			rec["reply_ok"], rec["replies"] = replyOK, replies
+			pi.Send(&protocol.Frame{Type: closeT, StreamID: sid, Payload: []byte{0}})
+			zzvEmit("bvec", rec)
+		}
+	}
+	w.m.Quiesce(5*time.Second, 30*time.Millisecond)
+
+	// ---- (2) initiator paths whose request id comes from the stream manager's counter: real ingress A -> B -> puppet exit
+	px := w.installPuppetExit()
+	a := w.A()
+	nop := 0
+	for _, kind := range []string{"tcp-ip", "tcp-domain", "forward", "shell", "file-upload", "file-download"} {
+		for _, rc := range zzvKRidClasses {
+			nop++
+			pub, priv := zzvKClassKey("valid")
+			predicted := zzvKPredictNext(w.openSids("A", "B"))
+			want := zzvKRidOf(rc, predicted)
+			if err := zzvKSetNextRequestID(a, want); err != nil {
+				t.Fatalf("keys/boundary: %v", err)
+			}
+			nDer := len(w.rec.derives())
+			from := len(px.Received())
+			type opRes struct {
+				err   error
+				conn  net.Conn
+				sess  *health.ShellSession
+			}
+			done := make(chan opRes, 1)
+			ctx, cancel := context.WithTimeout(context.Background(), 8*time.Second)
+			go func() {
+				var r opRes
+				switch kind {
+				case "tcp-ip":
+					r.conn, r.err = a.DialContext(ctx, "tcp", "127.66.0.1:9")
+				case "tcp-domain":
+					r.conn, r.err = a.DialContext(ctx, "tcp", "px.zzv.test:9")
+				case "forward":
+					r.conn, r.err = a.DialForward(ctx, "zzvpfwd")
+				case "shell":
+					r.sess, r.err = a.OpenShellStream(ctx, px.ID, &shell.ShellMeta{Command: "cat"}, false)
+				case "file-upload":
+					local := filepath.Join(w.localDir, fmt.Sprintf("bsrc-%d", nop))
+					os.WriteFile(local, []byte("boundary upload"), 0o644)
+					r.err = a.UploadFile(ctx, px.ID, local, "/tmp/zzv-nowhere", health.TransferOptions{}, nil)
+				case "file-download":
+					r.err = a.DownloadFile(ctx, px.ID, "/tmp/zzv-nowhere", filepath.Join(w.localDir, fmt.Sprintf("bdst-%d", nop)), health.TransferOptions{}, nil)
+				}
+				done <- r
+			}()
+			open, next := zzvKWaitPuppet(px, from, 10*time.Second, func(f *protocol.Frame) bool { return f.Type == protocol.FrameStreamOpen })
+			if open == nil {
+				cancel()
+				t.Fatalf("keys/boundary: no OPEN reached the puppet exit for %s", kind)
+			}
+			od := zzvKDecode(&zzvFrame{Type: open.Type, Payload: open.Payload})
+			var firstSid uint64
+			for _, f := range w.m.Net.Frames() {
+				if f.From == "A" && f.To == "B" {
+					if d := zzvKDecode(f); d.Class == "open" && d.OK && d.Pub == od.Pub {
+						firstSid = f.StreamID
+					}
+				}
+			}
+			rec := map[string]any{"side": "init", "kind": kind, "ridclass": rc, "rid": fmt.Sprintf("%d", od.Rid), "rid_as_steered": od.Rid == want,
+				"first_hop_sid": firstSid, "rid_eq_hop_sid": od.Rid == firstSid}
+			px.Send(&protocol.Frame{Type: protocol.FrameStreamOpenAck, StreamID: open.StreamID, Payload: (&protocol.StreamOpenAck{RequestID: od.Rid,
+				BoundAddrType: protocol.AddrTypeIPv4, BoundAddr: []byte{127, 0, 0, 1}, BoundPort: 9, EphemeralPubKey: pub}).Encode()})
+			ref, rerr := zzvKRefKey(priv, od.Pub, od.Rid, od.Pub, pub)
+			// what an honest exit would send first, sealed under the key it derives
+			pong := []byte("ZZV-BOUNDARY-PONG")
+			if kind == "shell" {
+				ack, _ := shell.EncodeAck(&shell.ShellAck{Success: true})
+				pong = ack
+			}
+			if kind == "shell" {
+				// an honest shell exit answers the META message: wait for it (the client installs its key before sending it)
+				zzvKWaitPuppet(px, next, 5*time.Second, func(f *protocol.Frame) bool {
+					return f.Type == protocol.FrameStreamData && f.StreamID == open.StreamID
+				})
+			}
+			if kind == "tcp-ip" || kind == "tcp-domain" || kind == "forward" || kind == "shell" {
+				px.Send(&protocol.Frame{Type: protocol.FrameStreamData, StreamID: open.StreamID, Payload: zzvKSeal(ref, 0, true, pong)})
+			}
+			var r opRes
+			closed := false
+			deadline := time.Now().Add(40 * time.Second)
+		waitOp:
+			for {
+				select {
+				case r = <-done:
+					break waitOp
+				case <-time.After(2 * time.Millisecond):
+				}
+				if time.Now().After(deadline) {
+					cancel()
+					t.Fatalf("keys/boundary: ingress operation %s did not return", kind)
+				}
+				if !closed && (kind == "file-upload" || kind == "file-download") {
+					got := px.Received()
+					for i := next; i < len(got); i++ {
+						if got[i].Type == protocol.FrameStreamData && got[i].StreamID == open.StreamID {
+							px.Send(&protocol.Frame{Type: protocol.FrameStreamClose, StreamID: open.StreamID})
+							closed = true
+							break
+						}
+					}
+				}
+			}
+			var mine []*zzvKDerive
+			for _, d := range w.rec.derives()[nDer:] {
+				if d.IPub == od.Pub || d.RPub == od.Pub {
+					mine = append(mine, d)
+				}
+			}
+			rec["derives"] = len(mine)
+			rec["outcome"] = "ack"
+			if len(mine) == 1 {
+				d := mine[0]
+				rec["site"] = strings.Join(d.Sites, " < ")
+				rec["args_ok"] = d.Rid == od.Rid && d.IPub == od.Pub && d.RPub == pub && d.Init
+				rec["derive_rid"] = fmt.Sprintf("%d", d.Rid)
+				rec["ref_ok"] = rerr == nil && ref == d.Key
+			} else {
+				rec["op_err"] = fmt.Sprint(r.err)
+			}
+			switch {
+			case r.conn != nil:
+				r.conn.SetDeadline(time.Now().Add(3 * time.Second))
+				buf := make([]byte, len(pong))
+				_, err := io.ReadFull(r.conn, buf)
+				rec["reply_ok"] = err == nil && bytes.Equal(buf, pong)
+				r.conn.Close()
+			case r.sess != nil:
+				select {
+				case m := <-r.sess.Receive:
+					rec["reply_ok"] = bytes.Equal(m, pong)
+				case <-time.After(3 * time.Second):
+					rec["reply_ok"] = false
+				}
+				r.sess.Close()
+			}
+			cancel()
+			w.m.Quiesce(5*time.Second, 5*time.Millisecond)
+			zzvEmit("bvec", rec)
+		}
+	}
+	zzvEmit("bsummary", map[string]any{"skipped": skipped, "icmp_available": w.icmpOK})
 }
